@@ -1,13 +1,59 @@
 (* C18 — extraction / rebuild / sums of parts / inequality projection stated for ARBITRARY Hermitian inputs:
    with a complete Hermitian orthonormal basis every Hermitian matrix is  op_of_vec  of its real coefficient vector
-   (C02_QObjBase.op_of_vec_of_op), so the theorems of C18_Extract / C18_Rebuild, which are stated for generators
+   ([op_of_vec_of_op] below, proved here so that this file depends on C18 files only), so the theorems of C18_Extract / C18_Rebuild, which are stated for generators
    lcb_hjk (sum h_a B_a) (sum j_a B_a) K, apply to  generate_hs_from_hjk(H, J, K)  and  generate_hs_from_hk(H, K)
    for all Hermitian H, J and every coefficient matrix K.  Generic in the ordered field; axiom-free. *)
 From Coq Require Import Field Ring Setoid Arith Lia Bool List.
 From QV.Core Require Import OF Sums Mat Cplx.
 From QV.Model Require Import QObj C18_Lindblad.
-From QV.Proofs Require Import C02_QObjBase C18_Algebra C18_Misc C18_Action C18_Extract C18_Rebuild.
+From QV.Proofs Require Import C18_Algebra C18_Misc C18_Action C18_Extract C18_Rebuild.
 Import ListNotations.
+
+(* ---------------------------------------------------------------- a Hermitian matrix is the op_of_vec of its real coefficients *)
+Section Expand.
+Context (F : OF).
+Add Field Ffx : (k_field F).
+Notation Cx := (CF F).
+Add Ring Crx : (c_ring Cx).
+Notation cmat := (cmat F).
+Notation rvec := (rvec F).
+Notation "x +c y" := (cadd Cx x y) (at level 50, left associativity).
+Notation "x *c y" := (cmul Cx x y) (at level 40, left associativity).
+Notation "0c" := (c0 Cx).
+Variable d : nat.
+Variable B : nat -> cmat.
+Hypothesis Hherm : basis_hermitian d B.
+Hypothesis Hcomp : basis_complete d B.
+
+Lemma hs_inner_herm_self_conj (A X : cmat) : hermitian d A -> hermitian d X -> zconj (hs_inner d A X) = hs_inner d A X.
+Proof. intros HA HX. unfold hs_inner. rewrite cj_sum.
+  rewrite (sumn_ext d _ (fun i => sumn d (fun j => zconj (A j i) *c X j i))).
+  2:{ intros i Hi. rewrite cj_sum. apply (@sumn_ext Cx); intros j Hj.
+      rewrite cj_mul, cj_cj. rewrite (HA i j Hi Hj), (HX i j Hi Hj), cj_cj. ring. }
+  exact (@sumn_swap Cx d d (fun i j => zconj (A j i) *c X j i)). Qed.
+Lemma self_conj_zof (z : Cx) : zconj z = z -> z = zof (re z).
+Proof. intros E. apply cplx_eq; [reflexivity|]. cbn. apply (f_equal im) in E. cbn [zconj im snd] in E.
+  set (x := im z) in *.
+  destruct (keqb F x (c0 F)) eqn:Eq. { now apply keqb_spec. }
+  exfalso. assert (Hx : x <> c0 F). { intros E0. apply keqb_spec in E0. congruence. }
+  apply (double_neq0 F x Hx). replace (cadd F x x) with (csub F x (copp F x)) by ring. rewrite E. ring. Qed.
+
+Lemma op_of_vec_of_op (X : cmat) : hermitian d X -> meq d d (op_of_vec d B (vec_of_op d B X)) X.
+Proof. intros HX i j Hi Hj. unfold op_of_vec, vec_of_op.
+  rewrite (sumn_ext (d * d) _ (fun a => sumn d (fun k => sumn d (fun l => X k l *c (zconj (B a k l) *c B a i j))))).
+  2:{ intros a Ha. rewrite <- (self_conj_zof _ (hs_inner_herm_self_conj (B a) X (Hherm a Ha) HX)).
+      unfold hs_inner. rewrite <- sumn_scale_r. apply (@sumn_ext Cx); intros k _.
+      rewrite <- sumn_scale_r. apply (@sumn_ext Cx); intros l _. ring. }
+  rewrite sumn_swap.
+  rewrite (sumn_ext d _ (fun k => sumn d (fun l => if Nat.eqb k i && Nat.eqb l j then X k l else 0c))).
+  2:{ intros k Hk. rewrite sumn_swap. apply (@sumn_ext Cx); intros l Hl.
+      rewrite sumn_scale_l, (Hcomp k l i j Hk Hl Hi Hj). destruct (Nat.eqb k i && Nat.eqb l j); ring. }
+  rewrite (sumn_ext d _ (fun k => if Nat.eqb k i then X k j else 0c)).
+  2:{ intros k Hk. destruct (Nat.eqb k i); cbn [andb].
+      - exact (sumn_delta d j (fun l => X k l) Hj).
+      - apply sumn_zero'. intros; reflexivity. }
+  exact (sumn_delta d i (fun k => X k j) Hi). Qed.
+End Expand.
 
 Section Hermitian.
 Context (F : OF).
@@ -28,7 +74,7 @@ Notation n := (d * d)%nat.
 Notation m := (d * d - 1)%nat.
 
 Lemma herm_as_opv (X : cmat) : hermitian d X -> meq d d X (op_of_vec d B (vec_of_op d B X)).
-Proof. intros HX i j Hi Hj. symmetry. now apply op_of_vec_of_op. Qed.
+Proof. intros HX i j Hi Hj. symmetry. now apply (op_of_vec_of_op F d B Hherm Hcomp X HX i j Hi Hj). Qed.
 
 Lemma rebuild_cb_ext (L L' : cmat) : meq n n L L' -> meq n n (rebuild_cb d B L) (rebuild_cb d B L').
 Proof. intros E. unfold rebuild_cb. apply (lcb_hjk_ext F d Hd B).
